@@ -93,7 +93,7 @@ theorem overfill_cnt (cmp : K → K → Int) (id : Nat) (kvs : List (K × V)) (k
         (match afterK with | none => 0 | some r => cnt i r) := by
   obtain ⟨c1, c2, c3, c4, c5, c6, c7, c8, c9, c10⟩ := consts
   have e3 : (rightFirstChildIdx 0).toNat = leftN.toNat + 1 := by omega
-  simp only [overfillNode, cnt_mk, e3]
+  simp only [overfillNode, extraChildPos_eq, cnt_mk, e3]
   rcases hk with ⟨rfl, rfl⟩ | ⟨hne, hl⟩
   · simp
   · cases afterK with
@@ -206,9 +206,11 @@ theorem ins_ids (cmp : K → K → Int) (k : K) (v : V) (x : Node K V) (fresh : 
       split at i2 <;> (repeat' split) <;> omega
     · cases i2
 
-theorem fixChild_ops {kvs : List (K × V)} {kids : List (Node K V)} {j : Nat}
+/-- whatever call of a rotation / `mergeTwo` the generated facts prescribe: it is one of the three list
+operations at some position -/
+theorem repairCall_ops {call : Option (Callee × NodeArg × NodeArg)} {kvs : List (K × V)} {kids : List (Node K V)} {j : Nat}
     {kvs' : List (K × V)} {kids' : List (Node K V)} {m : Option Nat}
-    (he : fixChild kvs kids j = some (kvs', kids', m)) :
+    (he : repairCall call kvs kids j = some (kvs', kids', m)) :
     ∃ a, rotateLeftAt kvs kids a = some (kvs', kids') ∨ rotateRightAt kvs kids a = some (kvs', kids') ∨
       mergeAt kvs kids a = some (kvs', kids') := by
   have key : ∀ {op : Option (List (K × V) × List (Node K V))} {mm : Option Nat},
@@ -218,6 +220,23 @@ theorem fixChild_ops {kvs : List (K × V)} {kids : List (Node K V)} {j : Nat}
     simp only [Prod.mk.injEq] at hrr
     obtain ⟨rfl, rfl, _⟩ := hrr
     exact hr
+  unfold repairCall at he
+  match call, he with
+  | none, he => cases he
+  | some (f, a, b), he =>
+    simp only [] at he
+    split at he
+    · cases f
+      · exact ⟨_, Or.inl (key he)⟩
+      · exact ⟨_, Or.inr (Or.inl (key he))⟩
+      · exact ⟨_, Or.inr (Or.inr (key he))⟩
+    · cases he
+
+theorem fixChild_ops {kvs : List (K × V)} {kids : List (Node K V)} {j : Nat}
+    {kvs' : List (K × V)} {kids' : List (Node K V)} {m : Option Nat}
+    (he : fixChild kvs kids j = some (kvs', kids', m)) :
+    ∃ a, rotateLeftAt kvs kids a = some (kvs', kids') ∨ rotateRightAt kvs kids a = some (kvs', kids') ∨
+      mergeAt kvs kids a = some (kvs', kids') := by
   have four : ∀ {β : Type} (c1 c2 c3 : Bool) (A B C E : Option β) (x : β),
       (if c1 = true then A else if c2 = true then B else if c3 = true then C else E) = some x →
       A = some x ∨ B = some x ∨ C = some x ∨ E = some x := by
@@ -226,13 +245,13 @@ theorem fixChild_ops {kvs : List (K × V)} {kids : List (Node K V)} {j : Nat}
   unfold fixChild at he
   simp only [] at he
   rcases four _ _ _ _ _ _ _ _ he with h | h | h | h
-  · exact ⟨j, Or.inl (key h)⟩
-  · exact ⟨j - 1, Or.inr (Or.inl (key h))⟩
-  · exact ⟨j - 1, Or.inr (Or.inr (key h))⟩
+  · exact repairCall_ops h
+  · exact repairCall_ops h
+  · exact repairCall_ops h
   · generalize (if hasRightSibling ↑j ↑kvs.length = true then kids[(rightSiblingIdx ↑j).toNat]? else none) = ro at h
     cases ro with
     | none => cases h
-    | some _ => exact ⟨j, Or.inr (Or.inr (key h))⟩
+    | some _ => exact repairCall_ops h
 
 theorem cntK_of_drop {kids after : List (Node K V)} {a : Nat} {L R : Node K V}
     (h : kids.drop a = L :: R :: after) (i : Nat) :
@@ -307,11 +326,13 @@ theorem finish_cnt {rootId id : Nat} {kvs : List (K × V)} {kids : List (Node K 
     split at he
     · split at he
       · split at he
-        · rename_i l hl
-          cases he
-          have := cntK_at hl i
-          simp only [cnt_mk]; omega
-        · cases he
+        · split at he
+          · rename_i l hl
+            cases he
+            have := cntK_at hl i
+            simp only [cnt_mk]; omega
+          · cases he
+        · cases he; simp only [cnt_mk]; omega
       · cases he; simp only [cnt_mk]; omega
     · cases he; simp only [cnt_mk]; omega
 
@@ -495,7 +516,8 @@ theorem idsOK_delete (cmp : K → K → Int) (t t' : Tree K V) (k : K) (hi : Ids
   have hone : ∀ i, cnt i t.root ≤ 1 := (nodup_iff_count_le_one _).mp hnd
   unfold delete at hp
   cases hres : del cmp k t.root.id t.root with
-  | absent => rw [hres] at hp; simp only [Option.some.injEq] at hp; subst hp; exact ⟨hnd, hlt⟩
+  | absent =>
+    rw [hres] at hp; simp only [deleteMissReturnsFirst, if_true, Option.some.injEq] at hp; subst hp; exact ⟨hnd, hlt⟩
   | crash => rw [hres] at hp; cases hp
   | done r u =>
     rw [hres] at hp; simp only [Option.some.injEq] at hp; subst hp
